@@ -68,7 +68,7 @@ inductive Stmt where
   | tk (gap : Bool) (sig : String) (ms n : Nat)
   /-- `trap … SIG…; ( kill -s SIG $$; …; exit N ) & wait [$! operands…]`: the signals the job sends in order (none for
       `CHLD`: the job's exit is the signal), further operands after `$!`, or a `wait` without operands -/
-  | ts (sigs : List String) (n : Nat) (rest : List WOp) (bare : Bool)
+  | ts (sigs : List String) (n : Nat) (rest : List WOp) (bare : Bool) (act : TrapAct := .plain)
   /-- `trap - CHLD` -/
   | tcx
   | ti
@@ -358,12 +358,21 @@ def St.killJob (st : St) (pid sig : Nat) : St :=
     Model column = `tawaitJobs` / `tawaitAll` of `WaitTrap.lean` (`Command::await_jobs` over `wait_while_running` over
     `wait_for_any_job_or_trap`) under the block scheduler `trun`; spec column = XCU 2.12: exit status 384 + the first
     signal, no job waited for.  Every trap action prints its line (the first inside the built-in, the others after it). -/
-def St.trapWait (st : St) (sigs : List String) (n0 : Nat) (rest : List WOp) (bare : Bool) : St :=
+def St.trapWait (st : St) (sigs : List String) (n0 : Nat) (rest : List WOp) (bare : Bool)
+    (act : TrapAct := .plain) : St :=
   let n := exitStatusSeen n0
   let st1 := st.newJob n 0
   let pid := (st1.jobs.getLast?.map (·.2.1)).getD 0
   let first := sigs.headD "?"
-  let st1 := { st1 with out := (sigs.map fun (sg : String) => s!"o:trap{sg.toLower}").reverse ++ st1.out }
+  -- what the trap action prints: its line; or (`probe`) `$?` as it finds it — the value before the trap —, `$!` (the new
+  -- job's: a value the probes have not seen yet) and `$x`; or nothing (`return r`)
+  let st1 := match act with
+    | .plain => { st1 with out := (sigs.map fun (sg : String) => s!"o:trap{sg.toLower}").reverse ++ st1.out }
+    | .probe q =>
+      let x := if st1.x.isEmpty then "-" else st1.x
+      { st1 with out := s!"{showStatus (act.entryStatus q)}/a{st1.seen + 1}/{x}" :: st1.out, seen := st1.seen + 1,
+                 probed := st1.nasync }
+    | .ret _ => st1
   if st.useSys then
     let sent := sigs.filter (· != "CHLD")
     let t0 : TSys := { sys := st1.sys, job := pid, traps := sigs.map sigNo, senders := sent.map fun sg => (pid, sigNo sg),
@@ -375,10 +384,12 @@ def St.trapWait (st : St) (sigs : List String) (n0 : Nat) (rest : List WOp) (bar
     let res := if bare then tawaitAll run 64 st1.active t0 else tawaitJobs run st1.active t0 ops
     let st2 := { st1 with sys := res.2.1.sys, active := res.1, runs := st1.runs + 1 }
     match res.2.2 with
-    | .trapped σ _ => { st2 with status := σ + SIGNAL_EXIT_OFFSET }
+    | .trapped σ _ => { st2 with status := statusAfter (trappedResult SIGNAL_EXIT_OFFSET σ act) }
     | .done sts => { st2 with status := sts.getLast?.getD 0 }   -- (not reachable: `ts_driver_trapped_any_children`)
     | .failed _ => { st2 with status := 998 }
-  else { st1 with status := Spec.waitInterrupted (sigNo first) }
+  else { st1 with status := match act with
+    | .ret r => r   -- XCU `return`: the function returns `r`
+    | _ => Spec.waitInterrupted (sigNo first) }
 
 def St.stmt (st : St) : Stmt → St
   | .pf on => { st with pf := on, status := 0 }
@@ -451,7 +462,7 @@ def St.stmt (st : St) : Stmt → St
       else st1
     if (sig == "INT" || sig == "QUIT") && !st.monitor then { st2 with fresh := st2.fresh ++ [pid], status := 0 }
     else { st2.killJob pid (sigNo sig) with status := 0 }
-  | .ts sigs n0 rest bare => st.trapWait sigs n0 rest bare
+  | .ts sigs n0 rest bare act => st.trapWait sigs n0 rest bare act
   | .tcx => { st with status := 0 }
   | .ti => { st with status := 0 }
   | .gj _ => { st with status := if st.useSys then waitStatus .echild else Spec.wait none }
